@@ -61,88 +61,134 @@ def run(ctx):
     extra.update({'programs': progs, 'disagreements_checked': len(ctx.obl), 'validated': totals, 'schemas': samples})
     ctx.need(totals['shared'] >= 10, 'fewer than 10 shared group tables validated (%d)' % totals['shared'])
 
-    # ---------------- R14.2 the compiler's merge key
+    # ---------------- R14.2 the compiler's merge decision
     prog = Program(UNITS)
     ctx.units.update(UNITS)
-    gh = prog.fn1('group_hash')
-    ctx.saw(gh)
-    hashed = sorted({x.decl['n'] for c in gh.calls() if c.callee_qp == 'FIX8::rothash' for a in c.args[1:] for x in a.walk()
-                     if x.k == 'MemberExpr' and x.decl.get('parent', '').endswith('FieldTrait')})
-    recurses = any(c.callee_qp == 'group_hash' for c in gh.calls())
-    need = {'_fnum', '_pos', '_field_traits'}
-    ctx.check(need <= set(hashed) and recurses, 'R14.2', 'group_hash#covers-row', gh.loc,
-              'the merge key depends on tag, position and trait bits of every member and on nested groups (hashes %s)' % hashed,
-              'group definitions are merged under a key that hashes only %s of each member: two definitions of one count field with the same member tags but a '
-              'different order or different mandatory flags share one trait table, so one message\'s group is decoded and encoded with the other\'s definition'
-              % hashed)
+
+    def sites(fn, keydecl):
+        """look-ups of the key (find(key)) that are branch conditions, hit edges, comparison calls in fn"""
+        cfg = fn.cfg
+        finds = [x for x in fn.calls() if x.callee is not None and x.callee.get('n') == 'find' and x.args and q.refers_to_decl(x.args[0], keydecl) and cfg.has_vertex(x)]
+        tests = set()
+        hits = []
+        for (b_, a_, pol_) in q.branches(fn, lambda a: any(y in finds for y in a.walk())):
+            tests.add(cfg.block_last[b_])
+            t_ = a_.strip(casts=True)
+            opn = t_.r.get('op') if t_.is_call else (t_.op if t_.k == 'BinaryOperator' else None)
+            if opn in ('!=', '=='):
+                hits.append(((b_, a_, pol_), opn == '!='))
+        cmpc = [x for x in fn.calls() if x.callee is not None and fn.tu.types[x.callee['ret']]['k'] == 'bool' and
+                sum(1 for a in x.args if ((a.type or {}).get('rec') or '').split('::')[-1] == 'MessageSpec') >= 2 and cfg.has_vertex(x)]
+        return finds, tests, hits, cmpc
+
+    def probe_ok(fn, keydecl, sink_vs, use_nodes, depth=0):
+        """(tested, confirmed, why): every definition of the key that reaches a sink is followed by a look-up of that value before the sink, or is the result of a
+        helper for which the same holds with `return` as the sink; every way from a key hit to a sink passes a structural comparison"""
+        cfg = fn.cfg
+        finds, tests, hits, cmpc = sites(fn, keydecl)
+        why = []
+        tested, confirmed = True, True
+        helper_confirms = False
+        rdefs = []
+        for u in use_nodes:
+            rdefs += q.reaching_defs(fn, keydecl, u)
+        if keydecl in fn.param_ids:
+            rdefs.append((None, 'entry', None))
+        seen = set()
+        for (dn, kind, val) in rdefs:
+            key_ = (dn.i if dn is not None else -1)
+            if key_ in seen or kind == 'out':
+                continue
+            seen.add(key_)
+            helper = None
+            if val is not None and depth < 2:
+                for c in q.calls_in(val):
+                    g = [h for h in prog.fns(c.callee_qp or '') if h.tu is fn.tu] if c.callee_qp else []
+                    idx = [i for i, a in enumerate(c.args) if q.refers_to_decl(a, keydecl)]
+                    if g and idx and idx[0] < len(g[0].param_ids) and sites(g[0], g[0].param_ids[idx[0]])[0]:
+                        helper = (g[0], idx[0])       # a function of this unit that looks the key up itself: a probing helper
+            if helper is not None:
+                h, pi = helper
+                ctx.saw(h)
+                hret = [n for n in h.all_nodes() if n.k == 'ReturnStmt' and h.cfg.has_vertex(n)]
+                rets_param = bool(hret) and all(q.refers_to_decl(r.children[0], h.param_ids[pi]) for r in hret if r.children)
+                ht, hc, hw = probe_ok(h, h.param_ids[pi], {h.cfg.vertex_of(r) for r in hret}, [r.children[0] for r in hret if r.children], depth + 1)
+                if rets_param and ht:
+                    helper_confirms = helper_confirms or hc
+                    continue
+                tested = False
+                why.append('the key comes from %s, which %s' % (h.q, '; '.join(hw) or 'does not return the key it tested'))
+                continue
+            start = cfg.entry if dn is None else cfg.vertex_of(dn)
+            for sv in sink_vs:
+                if sv == start or sv not in cfg.reach_from(start):
+                    continue
+                pth = cfg.path(start, lambda v, _sv=sv: v == _sv, avoid=tests)
+                if pth is not None or not tests:
+                    tested = False
+                    why.append('the value the key gets at %s reaches its use at %s without being looked up' % (dn.loc if dn is not None else 'entry of ' + fn.q, cfg.V[sv].node.loc if cfg.V[sv].node is not None else '?'))
+        for (br, hit_truth) in hits:
+            for t in q.atom_edge(cfg, br, hit_truth):
+                for sv in sink_vs:
+                    if (sv in cfg.reach_from(t) or sv == t) and cfg.path(t, lambda v, _sv=sv: v == _sv, avoid=q.verts(cfg, cmpc)) is not None and t != sv:
+                        confirmed = False
+                        why.append('a key hit at %s reaches the use of the key without a structural comparison of the two definitions' % br[1].loc)
+        if not hits and not helper_confirms:
+            confirmed = False
+            why.append('no look-up of the key is tested in ' + fn.q)
+        return tested, confirmed, why
+
     pg = prog.fn1('parse_groups')
     ctx.saw(pg)
     ins = [c for c in pg.calls() if c.callee is not None and c.callee.get('n') == 'insert' and c.obj is not None and
            'map<unsigned int, FIX8::MessageSpec' in (c.obj.type or {}).get('c', '')]
     hv = [d for n in pg.all_nodes() if n.k == 'DeclStmt' for d, i in n.r['decls'] if i >= 0 and any(c.callee_qp == 'group_hash' for c in q.calls_in(pg.node(i)))]
     ins = [c for c in ins if hv and any(q.refers_to_decl(x, hv[0]) for a in c.args for x in a.walk() if x.k == 'DeclRefExpr')]
-    ctx.need(len(ins) >= 1, 'parse_groups: insertion into the common group map under the hash key not found')
-    confirmed = False
-    for c in ins:
-        # is the insert's result examined and, on "already present", the two specs compared?
-        par = c.parent
-        used = par is not None and par.k not in ('ExprWithCleanups', 'CompoundStmt')
-        cmps = [x for x in pg.calls() if x.callee is not None and x.r.get('op') in ('==', '!=') and
-                any(((a.type or {}).get('rec') or '').split('::')[-1] in ('MessageSpec', 'FieldTraits', 'Presence') for a in ([x.obj] if x.obj is not None else []) + x.args)]
-        cfg = pg.cfg
-        fcmp = [x for x in pg.calls() if x.callee is not None and pg.tu.types[x.callee['ret']]['k'] == 'bool' and
-                sum(1 for a in x.args if ((a.type or {}).get('rec') or '').split('::')[-1] == 'MessageSpec') >= 2 and cfg.has_vertex(x)]
-        # every way from "this key is already taken" to the insert must pass the comparison
-        hits = q.branches(pg, lambda a: a.is_call and a.r.get('op') in ('!=', '==') and
-                          any(y.is_call and y.callee is not None and y.callee.get('n') == 'find' and y.args and hv and q.refers_to_decl(y.args[0], hv[0]) for y in a.walk()))
-        guarded = False
-        for br in hits:
-            taken = q.atom_edge(cfg, br, br[1].r['op'] == '!=')
-            cv = cfg.vertex_of(c)
-            if fcmp and all(cfg.path(t, lambda v: v == cv, avoid=q.verts(cfg, fcmp)) is None and t != cv for t in taken):
-                guarded = True
-        confirmed = confirmed or (used and bool(cmps)) or guarded
+    ctx.need(len(ins) >= 1 and hv, 'parse_groups: insertion into the common group map under the hash key not found')
+    uses = [x for c in ins for a in c.args for x in a.walk() if x.k == 'DeclRefExpr' and x.declid == hv[0]]
+    tested, confirmed, why = probe_ok(pg, hv[0], {pg.cfg.vertex_of(c) for c in ins}, uses)
     ctx.check(confirmed, 'R14.2', 'parse_groups#confirm-on-match', ins[0].loc,
               'a key match is confirmed by comparing the two definitions before they are merged',
-              'parse_groups merges two group definitions whenever their 32-bit keys are equal (the result of CommonGroups::insert is ignored and nothing is '
-              'compared): definitions that collide under rothash — GF(2)-linear in its value argument, so collisions are constructible — silently share metadata')
-    # the key finally used for the insert was itself tested: no definition of the key reaches the insert without passing the lookup test again
-    # (a colliding definition that is moved to another key may collide there as well - probe chains)
-    if hv:
-        cfg = pg.cfg
-        finds = [x for x in pg.calls() if x.callee is not None and x.callee.get('n') == 'find' and x.args and q.refers_to_decl(x.args[0], hv[0]) and cfg.has_vertex(x)]
-        for c in ins:
-            cv = cfg.vertex_of(c)
-            tests = set()
-            for (b, a, pol) in q.branches(pg, lambda a: any(y in finds for y in a.walk())):
-                tests.add(cfg.block_last[b])
-            before = [f for f in finds if cv in cfg.reach_from(cfg.vertex_of(f))]
-            bad = None
-            for (dn, kind, val) in q.local_defs(pg, hv[0]):
-                if kind not in ('init', 'assign', 'incdec') or not cfg.has_vertex(dn):
-                    continue            # handing the key to make_pair by reference is not a change of the key
-                dv = cfg.vertex_of(dn)
-                if cv not in cfg.reach_from(dv):
-                    continue
-                path = cfg.path(dv, lambda v: v == cv, avoid=tests)
-                if path is not None:
-                    bad = (dn, path)
-                    break
-            ctx.check(bool(tests) and bad is None, 'R14.2', 'parse_groups#key-tested-after-every-change', c.loc,
-                      'every value the merge key takes is looked up (and a hit compared) before it is used for the insert',
-                      'the merge key assigned at %s reaches the insert without being looked up again: a definition moved off a colliding key can land on '
-                      'another taken key (three definitions that collide pairwise) and silently share that definition\'s table' % (bad[0].loc if bad else '?'),
-                      cfg.describe_path(bad[1]) if bad else None)
+              'parse_groups merges two group definitions whenever their 32-bit keys are equal: definitions that collide under rothash — GF(2)-linear in its value '
+              'argument, so collisions are constructible — silently share metadata (%s)' % '; '.join(why[:2]))
+    ctx.check(tested, 'R14.2', 'parse_groups#key-tested-after-every-change', ins[0].loc,
+              'every value the merge key takes is looked up (and a hit compared) before it is used for the insert',
+              'a value of the merge key reaches the insert without being looked up again: a definition moved off a colliding key can land on another taken key '
+              '(three definitions that collide pairwise) and silently share that definition\'s table (%s)' % '; '.join(why[:2]))
     # the confirmation itself must be structural all the way down
     sg = prog.fns('same_group_definition')
+    structural = False
     if sg:
         sgf = sg[0]
         ctx.saw(sgf)
         rec = any(c.callee_qp == 'same_group_definition' for c in sgf.calls())
         by_hash = any(c.callee_qp == 'group_hash' for c in sgf.calls()) or any(n.k == 'MemberExpr' and n.decl.get('n') == '_hash' for n in sgf.all_nodes())
         compared = sorted({n.decl['n'] for n in sgf.all_nodes() if n.k == 'MemberExpr' and n.decl.get('parent', '').endswith('FieldTrait')})
-        ctx.check(rec and not by_hash and {'_fnum', '_pos', '_field_traits'} <= set(compared), 'R14.2', 'same_group_definition#structural', sgf.loc,
+        structural = rec and not by_hash and {'_fnum', '_pos', '_field_traits'} <= set(compared)
+        ctx.check(structural, 'R14.2', 'same_group_definition#structural', sgf.loc,
                   'the confirmation compares tag, position and trait bits of every member and recurses into nested groups (no hash involved)',
                   'the confirmation of a key match is not structural: %s' % ('nested groups are compared through group_hash / _hash, so nested definitions that collide '
                   'make two different outer definitions "equal"' if by_hash else ('nested groups are not compared' if not rec else 'members compared only by %s' % compared)))
+    # what the key hashes matters only when a key match is NOT confirmed structurally (then the key is the whole merge decision)
+    gh = prog.fn1('group_hash')
+    ctx.saw(gh)
+    def hashed_members(fn, depth=0):
+        out = {x.decl['n'] for c in fn.calls() if c.callee_qp == 'FIX8::rothash' for a in c.args[1:] for x in a.walk()
+               if x.k == 'MemberExpr' and x.decl.get('parent', '').endswith('FieldTrait')}
+        if depth < 2:
+            for c in fn.calls():
+                for h in (prog.fns(c.callee_qp) if c.callee_qp and c.callee_qp not in ('group_hash', 'FIX8::rothash') else []):
+                    if h.tu is fn.tu and h.q != fn.q:
+                        out |= hashed_members(h, depth + 1)
+        return out
+    hashed = sorted(hashed_members(gh))
+    recurses = any(c.callee_qp == 'group_hash' for c in gh.calls())
+    need = {'_fnum', '_pos', '_field_traits'}
+    if structural and confirmed and tested:
+        ctx.ok('R14.2', 'group_hash#covers-row', gh.loc, 'key matches are confirmed structurally, so the key may hash any subset of a definition (it hashes %s)' % hashed)
+    else:
+        ctx.check(need <= set(hashed) and recurses, 'R14.2', 'group_hash#covers-row', gh.loc,
+                  'the merge key depends on tag, position and trait bits of every member and on nested groups (hashes %s)' % hashed,
+                  'group definitions are merged under a key that hashes only %s of each member and a key match is not confirmed structurally: two definitions of one count '
+                  'field with the same member tags but a different order or different mandatory flags share one trait table' % hashed)
     ctx.floor('R14.1', 30)
